@@ -485,6 +485,13 @@ svalue_t *safe_apply (const char *fun, object_t * ob, int num_arg, int where)
       /* the stack is back where it was when we came in, arguments included */
       pop_n_elems (num_arg);
       ret = 0;
+      /* An evaluation limit hit inside the callback belongs to the evaluation that led
+       * here, if there is one. The error itself is absorbed (the driver code around this
+       * call must be allowed to finish), but the cost counter was re-armed when it was
+       * raised: the caller would go on with a fresh budget. Leave it nothing, so that the
+       * limit is hit again at the caller's next instruction. */
+      if (econ.save_csp >= control_stack && get_delivered_error_state (ES_MAX_EVAL_COST))
+        eval_cost = 1;
     }
   pop_context (&econ);
   return ret;
